@@ -861,3 +861,23 @@ func (c *fctx) lhsType08(lhs ast.Expr, en *env) gtype {
 	}
 	return c.t.exprType(lhs)
 }
+
+// refuseNilOpaque08: the nil value of a foreign (interface / pointer) type has no translation.
+func (c *fctx) refuseNilOpaque08(g gtype, e ast.Expr) {
+	if g.k == kOpaque && nilIdent(e) != nil {
+		c.t.fail(e, "nil of the foreign type %s", g.opq)
+	}
+}
+
+func (c *fctx) refuseNilAssign08(lhs, rhs ast.Expr, en *env) {
+	if nilIdent(rhs) == nil {
+		return
+	}
+	if id, ok := ast.Unparen(lhs).(*ast.Ident); ok {
+		if o := c.t.info.Uses[id]; o != nil {
+			if v := en.lookup(o); v != nil {
+				c.refuseNilOpaque08(v.ty, rhs)
+			}
+		}
+	}
+}
